@@ -279,6 +279,44 @@ def checkC09 (ct : ClassTable) (p : Spec) (d : Option Arg) (t : V) (o : Obs9) : 
       | .ok v _ => valEq v t
       | _ => true))
 
+/-! ### histories -/
+
+/-- The property on ONE call of a history, judged against the class table of that moment: the
+    outcome is the denoted verdict (with the promised class and the callables that ran), pass /
+    reject is exactly `conforms` when nothing faults, and a default-free pattern returns a
+    value equal to the target. -/
+def checkCall (ct : ClassTable) (p : Spec) (d : Option Arg) (t : V) (o : Obs) : Bool :=
+  let den := denote ct (.matchS p d) t
+  obsSat den.1 den.2 o &&
+  (!constDefaults p ||
+   (match den.1 with
+    | .fault _ => true
+    | .pass _ => conforms ct p t || dfltOK d t
+    | .reject _ => !(conforms ct p t || dfltOK d t))) &&
+  (!(pureP p && d.isNone && wfV t) ||
+   (match o with
+    | .ok v _ => valEq v t
+    | _ => true))
+
+/-- what a history shows: one observation per call, nothing per registration -/
+def obsHist (env : Env) (p : Spec) (d : Option Arg) (steps : List HStep) (ct : ClassTable) :
+    List (Option Obs) :=
+  (runHist env p d steps ct).map (Option.map (observe env))
+
+/-- The property on a history: every call decides *its* target by the type relation *as it is
+    at that call* — whatever was matched before (same classes, other instances), and
+    whichever registrations happened in between. -/
+def checkHist (p : Spec) (d : Option Arg) : List HStep → ClassTable → List (Option Obs) → Bool
+  | [], _, os => os.isEmpty
+  | .call t :: rest, ct, some o :: os => checkCall ct p d t o && checkHist p d rest ct os
+  | .register a k :: rest, ct, none :: os => checkHist p d rest (registerCls ct a k) os
+  | _, _, _ => false
+
+/-- class rows of the user classes a case declares (`class K1(K0)`), prepended to the table -/
+def worldRows (ct : ClassTable) : List (String × String) → ClassTable
+  | [] => ct
+  | (k, base) :: r => worldRows ((k, k :: ct.mro base) :: ct) r
+
 /-! ### facts -/
 
 structure Facts9 where
@@ -289,6 +327,18 @@ structure Facts9 where
   defaults : String
   mutations : List (String × String × String)
   fresh : List (String × String)
+  identity : List (String × String × Bool)
+
+/-- Markers compared by identity whose copies are *other* objects in the pinned glom:
+    * `T`: `Check.glomit` tests `self.spec is not T` only to skip a `glom(target, T)` that would
+      return the target anyway — a copy of `T` takes the other branch with the same result;
+    * `M`: `_MExpr.glomit` resolves its operands with `lhs is M` / `rhs is M`, and `_MType` defines
+      no `__copy__` / `__deepcopy__` / `__reduce__`: in a deep copy of `M > 3` the operand is a
+      second `_MType` instance, `<_MType> > 3` builds a (truthy) `_MExpr`, and every target
+      passes.  A defect of the pinned glom (reported; the harness keeps deep copies of M
+      operands out of the correspondence behind `GATE_DEEPCOPY_M`); the model has no term for
+      "an `_MType` that is not `M`", so `copySpec` leaves comparison operands as they are. -/
+def identityExempt : List String := ["M", "T"]
 
 def expectedPrecedence : List (String × String) :=
   [("type(match) in (Required, Optional)", "match = match.key"),
@@ -305,8 +355,15 @@ def expectedPrecedence : List (String × String) :=
     * **frame**: every object `_glom_match`, `_handle_dict`, `Regex.glomit`, `Match.glomit`,
       `Optional.glomit` store into or call a mutating method on is the scope or a local bound
       to a fresh display / comprehension in the same function — never the target or the spec;
-    * TypeMatchError is a MatchError and a TypeError; `Match.matches` catches GlomError. -/
+    * TypeMatchError is a MatchError and a TypeError; `Match.matches` catches GlomError;
+    * **copies**: the markers the matching code recognises by identity survive `copy.copy`,
+      `copy.deepcopy` and a pickle round trip as the very same object — `_MISSING` ("no
+      default given" in Match / And / Or / Switch / Optional) and `RAISE` (Check) in particular;
+      `identityExempt` lists the two that do not (see there). -/
 def WF9 (env : Env) (f : Facts9) : Bool :=
+  ["copy", "deepcopy", "pickle"].all (fun how =>
+    markerKept f.identity "_MISSING" how && markerKept f.identity "RAISE" how) &&
+  f.identity.all (fun r => r.2.2 || identityExempt.contains r.1) &&
   f.matchOrder == ["type", "dict", "listlike", "tuple", "callable", "ne"] &&
   f.dispatchOrder == ["TType", "glomit", "mode"] &&
   f.precedenceRules == expectedPrecedence &&
